@@ -39,7 +39,7 @@ type RHist struct {
 func NewRHist() *RHist { return &RHist{frozen: map[[2]uint64][]byte{}} }
 
 func (r *RHist) Append(d []byte) { r.d = append(r.d, append([]byte{}, d...)) }
-func (r *RHist) Len() uint64      { return uint64(len(r.d)) }
+func (r *RHist) Len() uint64     { return uint64(len(r.d)) }
 
 func (r *RHist) node(i uint64, h uint16, v uint64) []byte {
 	full := i+(uint64(1)<<h)-1 <= v
